@@ -46,7 +46,13 @@ SPECIAL = [
     'O=C(O)/C=C/C(=O)O', 'O=C(O)/C=C\\C(=O)O', 'ClC1=C(Cl)C1', 'C[C@H]1O[C@@H]1C', 'N1[C@@H](C)[C@H]1C',
     '[Na+].[O-]c1ccccc1', '[K+].[K+].[O-]C(=O)C(=O)[O-]', 'CC[N+](CC)(CC)CC.[O-]Cl(=O)(=O)=O', '[Li+].[AlH4-]', '[Na+].[BH4-]',
     '[H][H]', '[H+]', '[H-]', '[He]', '[Xe]', 'F[Xe]F', '[U+6]', 'O=[U+2]=O', '[Cl-].[Cl-].[Zn+2]',
+    # unbonded hydrogens in mixtures, main-group hydrides
+    '[H+].[Cl-]', '[Na+].[H-]', 'C[NH3+].[H-]', '[H+].[H+].[O-]S([O-])(=O)=O', '[SiH4]', '[GeH4]',
 ]
+# hydrogen-free main-group atoms, alone or held only by coordinate bonds: the reader keeps the written count although no valence state
+# lists it, any recalculation turns them into hydrides - usable only where a property speaks about every molecule as parsed (C02)
+ELEMENTAL = ['[C]', '[B]', '[S]', '[P]', '[Si]', '[C]~[Fe]', '[S](~[Fe])~[Fe]', '[Fe]~[C](~[Fe])(~[Fe])~[Fe]', '[B]~[Ni]', '[P]~[Co]', 'C~[Fe]',
+             '[CH3]~[Fe]', '[C].[Fe]', '[H].[H]', '[C]~[Fe]~[C]', '[S]~[Cu]~S', '[P](~[Ni])(~[Ni])~[Ni]']
 
 # fragments attached at a C-H (or any atom with an implicit H): (atoms, bonds, attach index, stereo setter)
 GROUPS = ['O', 'N', 'F', 'Cl', 'Br', 'I', 'C#N', 'C(=O)O', 'C(=O)[O-]', 'C(=O)N', 'C(=O)OC', 'N(=O)=O', '[N+](=O)[O-]',
